@@ -476,3 +476,22 @@ theorem connect_data (hA : Accepted D S) (hC : Cycle D v S run) (hn : D.SitesNod
   exact ⟨sw, sr, h1, h3, h2, h4⟩
 
 end TxV.Core
+
+/-! ## from the driver's checks to the hypotheses of the theorems -/
+namespace TxV.Core
+
+/-- the static hypotheses from the executable manager model (`Bridge.elaborate_static`) and the per-cycle
+ones from the driver's per-valuation check -/
+theorem model_hyps {Dm : CoreModel.Design} {E : CoreModel.Elab} {order : List Nat} {vm : CoreModel.Val}
+    {r : Nat → Bool} (hel : CoreModel.elaborate Dm = .ok E)
+    (hvo : CoreModel.validOrder E.g.before Dm.transactions order = true)
+    (hcy : Bridge.cycleOk Dm E order vm r = true) :
+    Accepted (Bridge.toAbs Dm) (Bridge.toSched E order) ∧ ValidOrder (Bridge.toAbs Dm) (Bridge.toSched E order) ∧
+    (Bridge.toAbs Dm).SitesNodup ∧
+    Cycle (Bridge.toAbs Dm) (Bridge.toVal Dm vm) (Bridge.toSched E order) (Bridge.runAll E vm r) ∧
+    Eager (Bridge.toAbs Dm) (Bridge.toVal Dm vm) (Bridge.toSched E order) (Bridge.runAll E vm r) := by
+  obtain ⟨hA, hO, hN⟩ := Bridge.elaborate_static hel hvo
+  obtain ⟨hC, hE⟩ := cycleEagerB_sound hA hcy
+  exact ⟨hA, hO, hN, hC, hE⟩
+
+end TxV.Core
